@@ -397,6 +397,51 @@ struct AllCumulativeCapitalGains {"""),
 
 
 # fourth benign patch: the modules behind the late claims (summary, costs, E*TRADE matcher, ledger locals)
+# behaviour-preserving rewrites around the rules added in the second seeding round
+BENIGN['benign_round2'] = [
+    # R11h: match -> as_ref().map()
+    ('src/portfolio/model/tx.rs', '        tx.commission_currency = match &c.separate_commission_currency {\n            Some(c_a_r) => Some(c_a_r.currency.clone()),\n            None => None,\n        };',
+     '        tx.commission_currency =\n            c.separate_commission_currency.as_ref().map(|c_a_r| c_a_r.currency.clone());'),
+    # R1g: an extra clone of the validated pair
+    ('src/portfolio/model/tx.rs', '        separate_commission_currency: comm_curr_and_rate,\n    };\n    Ok(specifics)', '        separate_commission_currency: comm_curr_and_rate.clone(),\n    };\n    Ok(specifics)'),
+    # R11j / R4b: records written through a helper that does not touch the cells
+    ('src/app/outfmt/csv.rs', 'impl CsvWriter {\n    pub fn new_to_output_dir', 'fn write_cells<W: std::io::Write>(\n    csv_w: &mut csv::Writer<W>,\n    cells: &[String],\n) -> Result<(), super::model::Error> {\n    csv_w.write_record(cells).map_err(|e| e.to_string())\n}\n\nimpl CsvWriter {\n    pub fn new_to_output_dir'),
+    ('src/app/outfmt/csv.rs', '        csv_w.write_record(&table_model.header).map_err(|e| e.to_string())?;\n        for row in &table_model.rows {\n            csv_w.write_record(row).map_err(|e| e.to_string())?;\n        }',
+     '        write_cells(&mut csv_w, &table_model.header)?;\n        for row in &table_model.rows {\n            write_cells(&mut csv_w, row)?;\n        }'),
+    ('src/app/outfmt/csv.rs', '            err_record[0] = format!("[!] {}", err);\n            csv_w.write_record(err_record).map_err(|e| e.to_string())?;', '            err_record[0] = format!("[!] {}", err);\n            write_cells(&mut csv_w, &err_record)?;'),
+    # R3g: closure form of the None arm
+    ('src/portfolio/bookkeeping/portfolio_status.rs', '        match self.get_latest_post_status_for_affiliate(&self.latest_affiliate) {\n            Some(s) => s.clone(),\n            None => Rc::new(\n                self.make_default_portfolio_security_status(&self.latest_affiliate),\n            ),\n        }',
+     '        self.get_latest_post_status_for_affiliate(&self.latest_affiliate)\n            .cloned()\n            .unwrap_or_else(|| {\n                Rc::new(self.make_default_portfolio_security_status(&self.latest_affiliate))\n            })'),
+    # R7e: the file list bound to a local first
+    ('src/cmd.rs', '    for csv_name in args.csv_files {', '    let csv_files = args.csv_files;\n    for csv_name in csv_files.into_iter() {'),
+    # R17g: extend instead of collect + append
+    ('src/app/approot.rs', '        let mut deltas_copy = deltas.iter().cloned().collect();\n        all_deltas.append(&mut deltas_copy);', '        all_deltas.extend(deltas.iter().cloned());'),
+    # R17h: entry API for the opening cost
+    ('src/portfolio/bookkeeping/costs.rs', '        if !day_zero_sec_costs.contains_key(sec) {\n            day_zero_sec_costs.insert(\n                sec.clone(),\n                (date_from_delta, d.pre_status.total_acb.unwrap()),\n            );\n        } else if day_zero_sec_costs.get(sec).unwrap().0 > date_from_delta {\n            panic!("Deltas for {sec} were not sorted by settlement date");\n        }',
+     '        let first_seen = day_zero_sec_costs\n            .entry(sec.clone())\n            .or_insert((date_from_delta, d.pre_status.total_acb.unwrap()));\n        if first_seen.0 > date_from_delta {\n            panic!("Deltas for {sec} were not sorted by settlement date");\n        }'),
+    # R19g: extend instead of append
+    ('src/peripheral/etrade_plan_pdf_tx_extract_impl.rs', '                trade_confs.append(&mut txs);', '                trade_confs.extend(txs.drain(..));'),
+    # R20e: copied() instead of map(|pn| *pn)
+    ('src/peripheral/pdf.rs', '                self.unyielded_pages = group_pages.iter().map(|pn| *pn).collect();', '                self.unyielded_pages = group_pages.iter().copied().collect();'),
+    # R13a / R13d: the reload test written with if-let and ||
+    ('src/fx/io/rate_loader.rs', '        let need_load = match self.year_rates.get(&year) {\n            None => true,\n            Some(rates) => {\n                !rates.contains_key(&trade_date)\n                    && !self.fresh_loaded_years.contains(&year)\n            }\n        };',
+     '        let need_load = if let Some(rates) = self.year_rates.get(&year) {\n            !(rates.contains_key(&trade_date)\n                || self.fresh_loaded_years.contains(&year))\n        } else {\n            true\n        };'),
+    # R4e: operands bound to locals first
+    ('src/portfolio/bookkeeping/delta_list.rs', '            new_share_balance = (pre_tx_status.share_balance\n                * split_specs.ratio.post_split.into())\n            .div(split_specs.ratio.pre_split);',
+     '            let post_split = split_specs.ratio.post_split;\n            let pre_split = split_specs.ratio.pre_split;\n            let scaled_up = pre_tx_status.share_balance * post_split.into();\n            new_share_balance = scaled_up.div(pre_split);'),
+    # R5d: the tolerance comparison the other way round
+    ('src/portfolio/bookkeeping/portfolio_status.rs', '        assert!(all_share_bal_diff < rust_decimal_macros::dec!(0.0000000001),', '        assert!(rust_decimal_macros::dec!(0.0000000001) > all_share_bal_diff,'),
+    # R18d: the currency test bound to a local
+    ('src/peripheral/broker/questrade.rs', '            if !b_tx.currency.is_default() {\n                fx_tracker.add_implicit_fxt(&b_tx)?;\n            }', '            let is_foreign = !b_tx.currency.is_default();\n            if is_foreign {\n                fx_tracker.add_implicit_fxt(&b_tx)?;\n            }'),
+    # R16d: cloned().map(Rc::new)
+    ('src/app/approot.rs', '            all_init_status.get(&sec).map(|o| std::rc::Rc::new(o.clone()));', '            all_init_status.get(&sec).cloned().map(std::rc::Rc::new);'),
+    # R5c: an iterator loop rewritten as an index loop over the same vector
+    ('src/app/approot.rs', '    for sec in &secs {\n        let render_table = sec_render_tables.get(sec).unwrap();', '    for sec_i in 0..secs.len() {\n        let sec = &secs[sec_i];\n        let render_table = sec_render_tables.get(sec).unwrap();'),
+    # R9: an integer count accumulated over a hash map, and a set of lengths
+    ('src/app/approot.rs', '    let mut secs: Vec<Security> = sec_render_tables.keys().cloned().collect();\n    secs.sort();',
+     '    let mut secs: Vec<Security> = sec_render_tables.keys().cloned().collect();\n    secs.sort();\n    let mut n_rows = 0usize;\n    for t in sec_render_tables.values() {\n        n_rows += t.rows.len();\n    }\n    tracing::debug!("{} rows in {} tables", n_rows, secs.len());'),
+]
+
 BENIGN['benign_late'] = [
     ('src/portfolio/summary.rs', 'make_simple_summary_txs', 'simple_summary_rows', 'all'),
     ('src/portfolio/summary.rs', 'get_summary_range_delta_indicies', 'summary_ranges_for', 'all'),
